@@ -125,6 +125,8 @@ def gen_domain(rng):
 
 def gen_problem(rng, n_agents):
     agents = [f"a{i + 1}" for i in range(n_agents)]
+    if rng.random() < 0.35:
+        agents[-1] = "a10"      # a name that contains another agent's name (a1), listed after it
     items = [f"i{i + 1}" for i in range(rng.choice([2, 3]))]
     locs = [f"l{i + 1}" for i in range(rng.choice([1, 2]))]
     tools = ["t1"] if rng.random() < 0.6 else []
